@@ -1,3 +1,4 @@
+pub mod c05;
 pub mod c08;
 pub mod c11;
 pub mod c12;
